@@ -11,6 +11,6 @@ CONSTANTS
   Pols = {"next"}
   MonSetDefault = {"C07", "C08", "C09", "C10", "C11", "C12", "C13", "C19"}
   Scope = "tiny"
-INVARIANTS MonitorsQuiet RejectedLeavesNoTrace
+INVARIANTS MonitorsQuiet RejectedLeavesNoTrace NoPanic
 VIEW View
 CHECK_DEADLOCK FALSE
